@@ -199,3 +199,38 @@ func VerifC20ForcedUpdate() {
 	}
 	verifapi.Assert(verifapi.LiveGoroutines() == want, "c20.exactly-one-loop")
 }
+
+// VerifC20Uncollected: start / stop cycles in which nobody (or only
+// sometimes somebody) calls Wait for the stopped run: every Stop ends the
+// loop - no keep-alive answers a later tick - and the agent can be started
+// again each time, however many results were never collected.
+func VerifC20Uncollected() {
+	node := &verifNode{ua: ethnode.UserAgent{Kind: ethnode.Geth}}
+	script := &verifPoolScript{}
+	a := &Agent{EthNode: node}
+	runs := verifapi.Param("runs", 3)
+	for r := 0; r < runs; r++ {
+		err := a.Start(script)
+		verifapi.Quiesce()
+		verifapi.Assert(err == nil, "c20.restart-after-stop")
+		if err != nil {
+			return
+		}
+		if verifapi.Bool(fmt.Sprint("tick", r)) {
+			before := script.updates
+			ok := verifapi.FireTicker(verifapi.Tickers() - 1)
+			verifapi.Quiesce()
+			verifapi.Assert(ok && script.updates == before+1, "c20.one-keepalive-per-tick")
+		}
+		a.Stop()
+		verifapi.Quiesce()
+		before := script.updates
+		verifapi.FireTicker(verifapi.Tickers() - 1)
+		verifapi.Quiesce()
+		verifapi.Assert(script.updates == before, "c20.stop-ends-the-loop")
+		if verifapi.Bool(fmt.Sprint("wait", r)) {
+			verifapi.Assert(a.Wait() == nil, "c20.wait-returns-after-stop")
+		}
+	}
+	verifapi.Reach("c20.uncollected")
+}
